@@ -11,6 +11,6 @@ def repeatedTimer : Prog :=
     stop := [.atomic [([], [.setStopped true, .cancel, .setRunning false])]] }
 
 /-- source lines of the instructions (for the reader; the correspondence harness gates the real threads there) -/
-def repeatedTimerLines : List (List Nat) := [[180], [168, 180, 173], [188]]
+def repeatedTimerLines : List (List Nat) := [[193], [181, 193, 186], [201]]
 
 end LPVerif.Generated
